@@ -578,6 +578,88 @@ Proof.
   - intros [l q]. cbn [fst snd]. intros (D1 & D2 & D3). splits; auto; lia.
 Qed.
 
+(* ------------------------------------------------------------------------------------------ CRL revoked entries *)
+Lemma getSerialNum_spec buf c len :
+  holds buf (c + len) ->
+  post (fun r => c + 1 < snd r /\ snd r <= c + len) (getSerialNum buf c len).
+Proof.
+  intros Hh. unfold getSerialNum.
+  pstep; [pstep|]. b2p.
+  pstep. pstep; [lia|].
+  pstep; [pstep|].
+  pstep. pstep.
+  eapply post_weaken; [apply getAsnLength_spec; eapply holds_le; eauto; lia|].
+  intros [vlen p] (A1 & A2 & A3 & A4).
+  pstep; [pstep|]. b2p.
+  pstep. pstep; [lia|].
+  pstep. cbn [snd]. lia.
+Qed.
+
+Lemma crl_entry_spec buf endp p :
+  holds buf endp -> endp < two32 -> p <= endp ->
+  post (fun r => let '(_, p', used) := r in p + 2 <= p' /\ p' <= endp /\ used = p' - p) (crl_entry true buf endp p).
+Proof.
+  intros Hh H32 Hp. unfold crl_entry.
+  pstep. pstep. u32.
+  eapply post_weaken; [apply getAsnConstructed32_spec; eapply holds_le; eauto; lia|].
+  intros [[rc ilen] p1] HS. cbn in HS. destruct HS as (S1 & S2 & S3 & S4 & S5). destruct (S5 eq_refl) as [_ S6].
+  pose proof (mod16_le ilen) as M.
+  pstep.
+  eapply post_weaken; [apply getSerialNum_spec; eapply holds_le; eauto; lia|].
+  intros [serial p2]. cbn [snd]. intros [B1 B2].
+  pstep; [pstep|]. b2p.
+  pstep. pstep; [lia|].
+  pstep; [pstep|].
+  pstep. pstep. u32.
+  eapply post_weaken; [apply getAsnLength_spec; eapply holds_le; eauto; lia|].
+  intros [timelen p3] (C1 & C2 & C3 & C4).
+  pstep; [pstep|]. b2p. u32.
+  pstep. pstep; [lia|].
+  pstep; [pstep|].
+  pstep; [pstep|]. cbn [andb] in *. b2p. u32.
+  pstep.
+  assert (E : (ilen + two32 - (p3 - p1) mod two32) mod two32 = ilen - (p3 - p1)).
+  { unfold two32 in *. rewrite (N.mod_small (p3 - p1)) by lia.
+    replace (ilen + 4294967296 - (p3 - p1)) with (ilen - (p3 - p1) + 1 * 4294967296) by lia.
+    rewrite N.mod_add by discriminate. apply N.mod_small. lia. }
+  rewrite u32sub_small by lia. rewrite E. rewrite u32sub_small by lia.
+  splits; lia.
+Qed.
+
+Lemma crl_entries_spec fuel : forall buf endp p glen acc,
+  holds buf endp -> endp < two32 -> p <= endp -> (N.to_nat glen < fuel)%nat ->
+  post (fun r => p <= snd r /\ snd r <= endp) (crl_entries fuel true buf endp p glen acc).
+Proof.
+  induction fuel as [|f IH]; intros buf endp p glen acc Hh H32 Hp Hf; [lia|].
+  cbn [crl_entries]. pstep.
+  - pstep. cbn [snd]. lia.
+  - b2p. pstep.
+    eapply post_weaken; [apply crl_entry_spec; auto|].
+    intros [[serial p'] used] (A1 & A2 & A3).
+    pstep; [pstep|]. b2p.
+    eapply post_weaken; [apply IH; auto; lia|].
+    intros [l q]. cbn [snd]. lia.
+Qed.
+
+Theorem crl_revoked_spec buf endp p glen :
+  holds buf endp -> endp < two32 -> p <= endp ->
+  post (fun r => p <= snd r /\ snd r <= endp) (crl_revoked buf endp p glen).
+Proof. intros. unfold crl_revoked, crl_revoked_gen. apply crl_entries_spec; auto. Qed.
+
+(* the pre-fix loop: an entry SEQUENCE shorter than its serial number + date moves the cursor 4 GB away; the
+   next header read is outside the block *)
+Definition crl_underflow_witness : bytes :=       (* SEQ(3){ INTEGER 01 02 03 ..., UTCTime "200101000000Z" } SEQ ... *)
+  [48; 3; 2; 1; 5; 23; 13; 50;48;48;49;48;49;48;48;48;48;48;48;90; 48; 0; 0; 0].
+Theorem crl_revoked_unfixed_witness :
+  crl_revoked_unfixed crl_underflow_witness 24 0 24 = Fault /\
+  crl_revoked crl_underflow_witness 24 0 24 = Err c_PS_PARSE_FAIL.
+Proof. split; vm_compute; reflexivity. Qed.
+
+Example ex_crl_revoked :    (* two entries: serial 05 and serial 00 81 *)
+  crl_revoked [48;18; 2;1;5; 23;13;50;48;48;49;48;49;48;48;48;48;48;48;90;  48;19; 2;2;0;129; 23;13;50;48;48;49;48;49;48;48;48;48;48;48;90] 41 0 41
+  = Ok ([[5]; [0; 129]], 41).
+Proof. vm_compute. reflexivity. Qed.
+
 (* ------------------------------------------------------------------------------------------ base64 *)
 Lemma b64_put_spec (Q : bytes * N -> Prop) cap acc z v :
   z < cap -> Q (v :: acc, z + 1) -> post Q (b64_put cap (acc, z) v).
@@ -1196,3 +1278,17 @@ Proof.
   pose proof (pem_decode_pw_spec haspw buf limit H) as P.
   split; [eapply post_safe; exact P|]. intros k iv out E. rewrite E in P. exact P.
 Qed.
+
+Lemma p09_crl_revoked_no_fault : forall buf endp p glen,
+  holds buf endp -> endp < two32 -> p <= endp ->
+  safe (crl_revoked buf endp p glen) /\
+  (forall serials p', crl_revoked buf endp p glen = Ok (serials, p') -> p <= p' /\ p' <= endp).
+Proof.
+  intros buf endp p glen H1 H2 H3.
+  pose proof (crl_revoked_spec buf endp p glen H1 H2 H3) as P.
+  split; [eapply post_safe; exact P|]. intros serials p' E. rewrite E in P. exact P.
+Qed.
+
+Lemma p09_crl_revoked_unfixed_refuted : exists buf,
+  crl_revoked_unfixed buf (lenN buf) 0 (lenN buf) = Fault /\ crl_revoked buf (lenN buf) 0 (lenN buf) = Err c_PS_PARSE_FAIL.
+Proof. exists crl_underflow_witness. exact crl_revoked_unfixed_witness. Qed.
